@@ -4,7 +4,7 @@
 From stdpp Require Import gmap.
 From Coq Require Import Strings.String Strings.Ascii ZArith NArith Lia.
 From RV Require Import Base.Text Irc.Str Irc.Parse Irc.State Irc.Monad Irc.Cmds Irc.SCmds Irc.Apply.
-From RV Require IrcProofs.StrLemmas.
+From RV Require IrcProofs.StrLemmas IrcProofs.Trim.
 From RV Require Import IrcProofs.Top.
 Local Open Scope string_scope.
 
@@ -276,7 +276,10 @@ Definition short (o : omsg) : Prop := slen (o_data o) <= max_length.   (* max_le
 Definition rendered (o : omsg) : Prop := exists m, o_data o = msg_bytes m.
 
 Theorem outputs_short e sv en sv' out : apply_entry e sv en = OOk sv' out -> Forall short out.
-Proof. apply outputs_of_entry. intros n rc m. unfold short, msg_bytes. cbn [o_data]. apply slen_stake. Qed.
+Proof.
+  apply outputs_of_entry. intros n rc m. unfold short, msg_bytes. cbn [o_data].
+  eapply Nat.le_trans; [apply RV.IrcProofs.Trim.slen_trim_partial_rune|apply slen_stake].
+Qed.
 
 Theorem outputs_rendered e sv en sv' out : apply_entry e sv en = OOk sv' out -> Forall rendered out.
 Proof. apply outputs_of_entry. intros n rc m. now exists m. Qed.
